@@ -10,6 +10,7 @@ import CSD.Lemmas.LogSeq
 import CSD.Lemmas.LogSeqIO
 import CSD.Lemmas.DAC
 import CSD.Lemmas.DACImage
+import CSD.Lemmas.RPFCPack
 
 namespace CSD.Props.C17
 open CSD
@@ -143,5 +144,17 @@ theorem models_match_source_text :
     Generated.body_DAC_VLS_load = SourceText.body_DAC_VLS_load ∧
     Generated.body_RG_save = SourceText.body_RG_save ∧
     Generated.body_RG_load = SourceText.body_RG_load := ⟨rfl, rfl, rfl, rfl, rfl, rfl, rfl, rfl, rfl, rfl, rfl, rfl, rfl, rfl⟩
+
+
+/-! ### RPFC symbol packing -/
+
+/-- The `bitsrp`-wide fields of RPFC: reading consecutive fields most significant bit first (`decodeSymbol`,
+as the model `RPFCImg.unpack` does it when it derives the symbol streams from a saved image) returns every
+symbol that was packed, for every width `w ≥ 1`, every list of symbols below `2^w` and whatever padding of
+fewer than `w` bits follows. -/
+theorem rpfc_unpack_inverts_pack (w : Nat) (hw : 0 < w) (syms : List Nat) (pad : List Bool)
+    (hx : ∀ x ∈ syms, x < 2 ^ w) (hp : pad.length < w) :
+    RPFCImg.unpack w (syms.length + 1) (RPFCImg.pack w syms ++ pad) = syms :=
+  RPFCImg.unpack_pack w hw syms pad (syms.length + 1) hx hp (Nat.lt_succ_self _)
 
 end CSD.Props.C17
